@@ -61,6 +61,17 @@ SET_ITER_BASELINE = {
     ('edb.pgsql.compiler.stmt.compile_SelectStmt',
      '{pgce.PathAspect.IDENTITY, pgce.PathAspect.VALUE}'):
         'two enum members, only used as dict keys',
+    ('edb.pgsql.compiler.relctx.range_for_ptrref',
+     'ptrref.intersection_components'):
+        'next(iter(..)): picks an arbitrary component of an intersection '
+        'pointer ("we just pick any one of them"); every choice is a valid '
+        'table, which one may differ between processes (same candidate as '
+        'component_refs)',
+    ('edb.pgsql.compiler.relctx.add_type_rel_overlay', 'typeref.ancestors'):
+        'FrozenSet[TypeRef] hashed by id; one overlay entry per ancestor, '
+        'keyed by that ancestor',
+    ('edb.pgsql.compiler.relctx.add_ptr_rel_overlay', 'typeref.ancestors'):
+        'same as add_type_rel_overlay',
     ('edb.pgsql.compiler.relctx.include_specific_rvar', 'aspects'):
         'callers in relgen pass a set display of PathAspect members; the '
         'loop only registers the rvar in maps keyed by (path_id, aspect)',
@@ -362,6 +373,77 @@ def run(repo: Repo, ctx) -> None:
 
 # ----------------------------------------------------------------------
     _r6(repo, ctx)
+    _r7(repo, ctx)
+
+
+LATERAL_NOT_FORWARDED_OK = {
+    ('range_for_material_objtype', 'rvar_for_rel'):
+        'range vars of CTEs placed inside a wrapper sub-select (ctx.subrel) '
+        'or as the only FROM item of an overlay arm: they are not FROM items '
+        'of the statement the caller joins into',
+}
+
+
+def _r7(repo: Repo, ctx) -> None:
+    """LATERAL is carried to the range var that joins the caller's FROM
+    list; parameters are described from the collection that was numbered."""
+    ctx.floor('C13.R7', 8)
+    n = 0
+    for m in repo.modules_in(PGC):
+        for f in repo._funcs_of(m):
+            if 'lateral' not in f.params():
+                continue
+            for c in walk_no_nested(f.node):
+                if not isinstance(c, ast.Call):
+                    continue
+                q = repo.resolve_expr(m, c.func)
+                cal = repo.functions.get(repo.canon(q)) if q else None
+                if cal is None or 'lateral' not in cal.params():
+                    continue
+                n += 1
+                ctx.saw(f)
+                idx = cal.params().index('lateral')
+                passed = any(k.arg == 'lateral' for k in c.keywords) or \
+                    len(c.args) > idx
+                key = (f.name, cal.name)
+                if not passed and key in LATERAL_NOT_FORWARDED_OK:
+                    ctx.ob('C13.R7', f'{f.name}->{cal.name}@L'
+                           f'{c.lineno - f.node.lineno}', True,
+                           loc=f'{m.rel()}:{c.lineno}',
+                           sample='audited: ' +
+                           LATERAL_NOT_FORWARDED_OK[key], nontrivial=False)
+                    continue
+                ctx.ob('C13.R7', f'{f.name}->{cal.name}:lateral', passed,
+                       f'{f.name} receives `lateral` but calls {cal.name} '
+                       f'without passing it on: the range var is emitted '
+                       f'without LATERAL while join conditions injected '
+                       f'into it refer to sibling FROM items (invalid '
+                       f'reference to FROM-clause entry)',
+                       f'{m.rel()}:{c.lineno}', sample='lateral=lateral')
+    if n < 8:
+        raise AnalysisError(f'C13.R7: only {n} lateral-forwarding call sites')
+    # detached parameter types are listed for every numbered argument
+    ct = repo.func(f'{PGC}.compile_ir_to_sql_tree')
+    ctx.saw(ct)
+    comps = [c for c in ast.walk(ct.node) if isinstance(c, ast.DictComp)
+             and 'argmap' in norm(c.key)]
+    if len(comps) != 1:
+        raise AnalysisError('C13.R7: detached_params construction not found')
+    from ..model import inline_locals
+    it = inline_locals(ct.node, comps[0].generators[0].iter)
+    envk = [k for c in ast.walk(ct.node) if isinstance(c, ast.Call)
+            and (call_name(c) or '').endswith('Environment')
+            for k in c.keywords if k.arg == 'query_params']
+    both = bool(envk) and 'query_params' in norm(envk[0].value) and \
+        'query_globals' in norm(envk[0].value)
+    ok = (it == 'ctx.env.query_params' and both) or (
+        'query_globals' in it and 'query_params' in it)
+    ctx.ob('C13.R7', 'compile_ir_to_sql_tree:detached-params-cover-argmap',
+           ok, f'detached parameter types are collected from `{it}`, which '
+           f'does not contain the globals that populate_argmap numbered: '
+           f'the SQL refers to $N arguments whose types are not declared '
+           f'to the prepared statement', ct.loc,
+           sample='for param in ctx.env.query_params (params + globals)')
 
 
 # hoisted CTE families of the pg compiler context; bodies of a GENERAL
@@ -633,6 +715,14 @@ def _iterations(f: FuncInfo):
         elif isinstance(n, (ast.ListComp, ast.GeneratorExp, ast.DictComp)):
             for g in n.generators:
                 yield n, g.iter
+        elif isinstance(n, ast.Call) and len(n.args) >= 1 and (
+                dotted(n.func) in ('tuple', 'list', 'enumerate', 'iter')
+                or (isinstance(n.func, ast.Attribute)
+                    and n.func.attr in ('join', 'extend'))):
+            # materialising a container in its iteration order
+            yield n, n.args[0]
+        elif isinstance(n, ast.Starred):
+            yield n, n.value
 
 
 def _strip_opt(t: str) -> str:
